@@ -137,6 +137,14 @@ impl NetworkStream {
         }
 
         let tcp_stream = try_connect(server, timeout, local_addr)?;
+        // The TLS handshake below reads and writes too: it must not wait
+        // for a silent server any longer than the rest of the session
+        tcp_stream
+            .set_read_timeout(timeout)
+            .map_err(error::connection)?;
+        tcp_stream
+            .set_write_timeout(timeout)
+            .map_err(error::connection)?;
         let mut stream = NetworkStream::new(InnerNetworkStream::Tcp(tcp_stream));
         if let Some(tls_parameters) = tls_parameters {
             stream.upgrade_tls(tls_parameters)?;
